@@ -51,6 +51,18 @@ CHECKS = {
         "oracle": "C01 model at full probe; exact top-k over probed clusters (<= 64 tie resolutions, else validity only) at partial probe; monotone in p; assignment = exactly one list whose centroid is a nearest one; Add/search before Train and Train with < nlist vectors must fail",
         "assumptions": ["distinct non-zero ids", "float32 tolerance model of DESIGN 3.2"],
     },
+    "C14": {
+        "test": "TestVerif_C14",
+        "level": "exploration",
+        "technique": "property-based testing (rapid): independent float64 recomputation of codes, reconstructions and asymmetric distances from the trained codebooks over generated configurations and histories",
+        "level_text": "Generated-input search against an independent recomputation: for generated (kind, metric, M, dsub, nbits asked over 1..17, nlist, training set from the minimum accepted size, history) every stored code must be an arg-min codeword, every reported score the Euclidean distance to the reconstruction (residual to the probed list's centroid for IVFPQ), every result the exact top-k by that score, every score within the quantisation error of the true distance; Train must fail cleanly, never panic. Sampling; nbits above 10 (quick) / 12 (thorough) is only exercised at the constructor.",
+        "level_note": "Codebooks, codes, centroids and stored vectors are read through the accessor file; nothing of the implementation's encode / table code is reused.",
+        "quick": {"checks": 1200, "shards": 1, "timeout": 900},
+        "thorough": {"checks": 5000, "shards": 16, "timeout": 3400},
+        "rule": "rapid-generated configurations and histories (adds from the training set, fresh vectors, vectors built to coincide with their reconstruction, removals, flushes, searches with k / threshold incl. exact reported scores / id restriction / nprobes); non-trivial = search over >= 2 distinct codes that was truncated by k; distinct by FNV-64 of the case JSON",
+        "oracle": "float64 recomputation from codebooks: arg-min codes, score = ||q' - recon|| (IVFPQ: residuals to the vector's list centroid), exact top-k (C13 tie handling for partial probes), |score - true distance| <= quantisation error, nearest-cluster assignment, clean Train errors",
+        "assumptions": ["distinct non-zero ids", "float32 tolerance model of DESIGN 3.2"],
+    },
     "C18": {
         "test": "TestVerif_C18",
         "level": "exploration",
